@@ -92,3 +92,7 @@ def run(ctx):
     for n_ in list(range(0, 140)) + [200, 255, 256, 1000]:
         ops.append(f'sha512 {hexs(rbytes(rng, n_))}')
     ctx.both(ops)
+    # the command-line path (cmd/sign-bundle integrity-block): real binary, reused / pre-existing output files
+    import c20
+    c20.ib_cli_stage(ctx, rng, 6 if not thorough else 16)
+
